@@ -5,6 +5,7 @@ package c09
 import (
 	"encoding/json"
 	"fmt"
+	"sort"
 	"sync"
 
 	"gopkg.in/typ.v4/sync2"
@@ -36,7 +37,7 @@ func replay(c *core.Ctx, raw json.RawMessage) error {
 	if err := json.Unmarshal(raw, &cs); err != nil {
 		return err
 	}
-	r, info := execute(cs, sched.Prefix(cs.Choices))
+	r, info := execute(cs, sched.Prefix(cs.Choices), true)
 	report(c, cs, r, info)
 	return nil
 }
@@ -58,12 +59,45 @@ type locker interface {
 	ClearKey(int)
 }
 
-func execute(cs Case, choose sched.Chooser) (sched.Result, *runInfo) {
+// keysOf collects the keys a case uses (sorted).
+func keysOf(cs Case) []int {
+	seen := map[int]bool{}
+	var walk func(bs []Block)
+	walk = func(bs []Block) {
+		for _, b := range bs {
+			seen[b.K] = true
+			walk(b.Inner)
+		}
+	}
+	walk(cs.Prefix)
+	for _, p := range cs.Progs {
+		walk(p)
+	}
+	var ks []int
+	for k := range seen {
+		ks = append(ks, k)
+	}
+	sort.Ints(ks)
+	return ks
+}
+
+// execute runs the case. With probe set, an extra goroutine (index len(cs.Progs)) runs after all the
+// others have finished or are blocked and probes the FINAL state of every key's mutex: TryLockKey(k)
+// (and UnlockKey(k) when it succeeded). Its calls are part of the replayed program, so the model must
+// agree with the real mutexes on which keys are still held at the end, and the occupancy oracle checks
+// "succeeds iff nobody holds the key". The probe goroutine is never offered to the explorer as an
+// alternative (it only runs when nothing else can).
+func execute(cs Case, choose sched.Chooser, probe bool) (sched.Result, *runInfo) {
 	var km sync2.KeyedMutex[int]
 	var rw sync2.KeyedRWMutex[int]
-	info := &runInfo{calls: make([][]*call, len(cs.Progs))}
-	threads := make([]sched.Thread, len(cs.Progs))
-	for t := range cs.Progs {
+	np := len(cs.Progs)
+	nthreads := np
+	if probe {
+		nthreads++
+	}
+	info := &runInfo{calls: make([][]*call, nthreads)}
+	threads := make([]sched.Thread, nthreads)
+	for t := 0; t < nthreads; t++ {
 		t := t
 		n := 0
 		threads[t].Dyn = func(rec func(string)) {
@@ -131,13 +165,47 @@ func execute(cs Case, choose sched.Chooser) (sched.Result, *runInfo) {
 					}
 				}
 			}
+			if t == np { // the final probe
+				for _, k := range keysOf(cs) {
+					runBlocks([]Block{{How: "TryLock", K: k}})
+				}
+				return
+			}
 			if t == 0 {
 				runBlocks(cs.Prefix)
 			}
 			runBlocks(cs.Progs[t])
 		}
 	}
-	r := sched.Run(threads, choose, 6000)
+	ch := choose
+	if probe {
+		ch = func(step int, enabled []int, last int) int {
+			var others []int
+			for _, e := range enabled {
+				if e != np {
+					others = append(others, e)
+				}
+			}
+			if len(others) > 0 {
+				return choose(step, others, last)
+			}
+			return np
+		}
+	}
+	r := sched.Run(threads, ch, 6000)
+	if probe { // the probe is not an alternative the explorer may pick
+		for j, en := range r.Enabled {
+			if len(en) > 1 {
+				var others []int
+				for _, e := range en {
+					if e != np {
+						others = append(others, e)
+					}
+				}
+				r.Enabled[j] = others
+			}
+		}
+	}
 	return r, info
 }
 
@@ -194,6 +262,44 @@ func report(c *core.Ctx, cs Case, r sched.Result, info *runInfo) {
 			evs[j], evs[j-1] = evs[j-1], evs[j]
 		}
 	}
+	// "uncontended" (the property: Try* succeed when the key is free AND UNCONTENDED): waiting(i, t, k, w)
+	// = at step i some goroutine other than t stands at the blocking Lock (w: only a writer's Lock) or
+	// RLock hook of key k, i.e. its next step is that mutex step (or it is blocked there for good).
+	// Go's sync.RWMutex refuses new readers while a writer waits and sync.Mutex.TryLock may fail on a
+	// free mutex with queued waiters, so a Try* that fails in such a moment is NOT a violation. (Under the
+	// controlled scheduler a goroutine parked at the hook is not yet inside the real mutex, so the real
+	// Try* succeeds anyway and agrees with the model; the relaxation only keeps the oracle honest.)
+	waiting := func(i, t, k int, writerOnly bool) bool {
+		for t2, calls := range info.calls {
+			if t2 == t {
+				continue
+			}
+			next := -1 // t2's next step after i
+			for j := i + 1; j < len(r.Steps); j++ {
+				if r.Steps[j].T == t2 {
+					next = j
+					break
+				}
+			}
+			var cl *call
+			if next >= 0 {
+				if l := r.Steps[next].Label; l != "KM_Lock" && l != "KRW_Lock" && l != "KRW_RLock" {
+					continue
+				}
+				for _, e := range evs {
+					if e.step == next {
+						cl = e.c
+					}
+				}
+			} else if len(calls) > 0 && calls[len(calls)-1].endAt == 0 { // never steps again: blocked in its last call
+				cl = calls[len(calls)-1]
+			}
+			if cl != nil && cl.k == k && (cl.op == "Lock" || (cl.op == "RLock" && !writerOnly)) {
+				return true
+			}
+		}
+		return false
+	}
 	// oracle: per-key occupancy
 	writers := map[int]int{} // key -> thread+1 holding exclusively
 	readers := map[int]int{}
@@ -213,8 +319,8 @@ func report(c *core.Ctx, cs Case, r sched.Result, info *runInfo) {
 				if e.c.ok && !free {
 					fail = fmt.Sprintf("TryLockKey(%d) by thread %d succeeded while the key was held", k, e.t)
 				}
-				if !e.c.ok && free {
-					fail = fmt.Sprintf("TryLockKey(%d) by thread %d failed although the key was free", k, e.t)
+				if !e.c.ok && free && !waiting(e.step, e.t, k, false) {
+					fail = fmt.Sprintf("TryLockKey(%d) by thread %d failed although the key was free and uncontended", k, e.t)
 				}
 				if e.c.ok {
 					writers[k] = e.t + 1
@@ -234,8 +340,8 @@ func report(c *core.Ctx, cs Case, r sched.Result, info *runInfo) {
 				if e.c.ok && writers[k] != 0 {
 					fail = fmt.Sprintf("TryRLockKey(%d) succeeded while a writer held the key", k)
 				}
-				if !e.c.ok && writers[k] == 0 {
-					fail = fmt.Sprintf("TryRLockKey(%d) failed although no writer held the key", k)
+				if !e.c.ok && writers[k] == 0 && !waiting(e.step, e.t, k, true) {
+					fail = fmt.Sprintf("TryRLockKey(%d) failed although no writer held the key and no writer was waiting", k)
 				}
 				if e.c.ok {
 					readers[k]++
@@ -271,10 +377,13 @@ func report(c *core.Ctx, cs Case, r sched.Result, info *runInfo) {
 	if fail != "" {
 		c.Fail(fail, fmt.Sprint(r.Steps))
 	}
-	nt := len(cs.Progs)
+	nt := len(info.calls) // the programs' goroutines plus the final probe
 	sameKey := false
 	seen := map[int]int{}
 	for t, calls := range info.calls {
+		if t >= len(cs.Progs) {
+			break // the probe touches every key: it does not make a case non-trivial
+		}
 		for _, cl := range calls {
 			if p, ok := seen[cl.k]; ok && p != t {
 				sameKey = true
@@ -282,7 +391,7 @@ func report(c *core.Ctx, cs Case, r sched.Result, info *runInfo) {
 			seen[cl.k] = t
 		}
 	}
-	if nt > 1 && sameKey && (contended || len(r.Steps) > 0) {
+	if len(cs.Progs) > 1 && sameKey && (contended || len(r.Steps) > 0) {
 		c.Nontrivial()
 	}
 	emitCount++
@@ -292,7 +401,7 @@ func report(c *core.Ctx, cs Case, r sched.Result, info *runInfo) {
 	}
 	progs := make([]string, nt)
 	results := make([]string, nt)
-	for t := range cs.Progs {
+	for t := range info.calls {
 		var a []string
 		for _, cl := range info.calls[t] {
 			a = append(a, cl.coq)
@@ -303,7 +412,14 @@ func report(c *core.Ctx, cs Case, r sched.Result, info *runInfo) {
 	c.Emit(fmt.Sprintf("Case 1 %s %s %s %s []", core.List(progs), sched.CoqSteps(r.Steps), core.List(results), core.Bool(r.Deadlock)))
 }
 
-func randBlocks(c *core.Ctx, rw bool, nkeys, depth, n int) []Block {
+// randBlocks generates n blocks over the shared keys 0..nkeys-1. priv >= 0 is a key that only this
+// goroutine ever uses: on it the goroutine may also call ClearKey, concurrently with whatever the others
+// do on the other keys - nobody else holds or awaits priv, as the property requires for ClearKey
+// (disc2_from of Props/C09ck.v); ClearKey is only generated at the top level of a program, never while
+// the goroutine itself holds priv. noRead is a key this goroutine already holds a read lock on (-1: none):
+// a nested RLock/TryRLock of the same key is outside sync.RWMutex's contract (recursive read locking
+// deadlocks in Go when a writer queues up in between) and is not generated.
+func randBlocks(c *core.Ctx, rw bool, nkeys, depth, n, priv, noRead int) []Block {
 	hows := []string{"Lock", "Lock", "TryLock"}
 	if rw {
 		hows = []string{"Lock", "TryLock", "RLock", "RLock", "TryRLock"}
@@ -311,8 +427,21 @@ func randBlocks(c *core.Ctx, rw bool, nkeys, depth, n int) []Block {
 	var bs []Block
 	for i := 0; i < n; i++ {
 		b := Block{How: hows[c.Rng.Intn(len(hows))], K: c.Rng.Intn(nkeys)}
-		if depth > 0 && c.Rng.Chance(25) {
-			b.Inner = randBlocks(c, rw, nkeys, depth-1, 1)
+		if priv >= 0 && c.Rng.Chance(30) {
+			b.K = priv
+			if c.Rng.Chance(50) {
+				b.How = "Clear"
+			}
+		}
+		if (b.How == "RLock" || b.How == "TryRLock") && b.K == noRead {
+			b.How = "TryLock"
+		}
+		if b.How != "Clear" && depth > 0 && c.Rng.Chance(25) {
+			nr := noRead
+			if b.How == "RLock" || b.How == "TryRLock" {
+				nr = b.K
+			}
+			b.Inner = randBlocks(c, rw, nkeys, depth-1, 1, -1, nr)
 		}
 		bs = append(bs, b)
 	}
@@ -322,11 +451,11 @@ func randBlocks(c *core.Ctx, rw bool, nkeys, depth, n int) []Block {
 func explore(c *core.Ctx, cs Case, maxPre, limit int) {
 	var base []int // the set-up prefix runs alone: thread 0 is forced while it executes it
 	if len(cs.Prefix) > 0 {
-		r, _ := execute(Case{RW: cs.RW, Prefix: cs.Prefix, Progs: [][]Block{{}}}, sched.NonPreemptive)
+		r, _ := execute(Case{RW: cs.RW, Prefix: cs.Prefix, Progs: [][]Block{{}}}, sched.NonPreemptive, false)
 		base = r.Chosen
 	}
 	sched.ExploreBFS(func(prefix []int) sched.Result {
-		r, info := execute(cs, sched.Prefix(prefix))
+		r, info := execute(cs, sched.Prefix(prefix), true)
 		report(c, cs, r, info)
 		return r
 	}, base, maxPre, limit, func(sched.Result) {})
@@ -445,12 +574,26 @@ func run(c *core.Ctx) {
 		{RW: true, Progs: [][]Block{{L("Lock", 0)}, {L("TryRLock", 0)}}},
 		{Progs: [][]Block{{L("Lock", 0)}, {L("Lock", 0)}, {L("Lock", 1)}}},
 	}
+	smallClear := []Case{
+		// ClearKey CONCURRENT with the others, on a key nobody else holds or awaits (key 0 / key 5 are used by
+		// thread 1 only): it races the others' first use of fresh keys (dirtyLocked expunges the cleared entry,
+		// promotion drops it) and is followed by a re-acquisition that must create a new mutex
+		{Progs: [][]Block{{L("Lock", 3), L("TryLock", 4)}, {C(0), L("Lock", 0)}}},
+		{Progs: [][]Block{{L("Lock", 3)}, {L("Lock", 5), C(5), L("TryLock", 5)}}},
+		{RW: true, Progs: [][]Block{{L("RLock", 3), L("Lock", 4)}, {C(0), L("RLock", 0)}}},
+	}
 	lim2 := c.N(400, 3000, 800)
+	lim3 := c.N(100, 1500, 300)
 	for li, lay := range layouts {
 		for _, b := range small {
 			b.Prefix = lay
 			b.Kind = fmt.Sprintf("layout_%d", li)
 			explore(c, b, maxPre, lim2)
+		}
+		for _, b := range smallClear {
+			b.Prefix = lay
+			b.Kind = fmt.Sprintf("layout_%d_clear", li)
+			explore(c, b, maxPre, lim3)
 		}
 	}
 	emitEvery = 1
@@ -461,7 +604,11 @@ func run(c *core.Ctx) {
 		nkeys := 1 + c.Rng.Intn(3)
 		progs := make([][]Block, nt)
 		for t := range progs {
-			progs[t] = randBlocks(c, rw, nkeys, 1, 1+c.Rng.Intn(3))
+			priv := -1
+			if c.Rng.Chance(50) {
+				priv = 10 + t // a key of its own, for concurrent ClearKey
+			}
+			progs[t] = randBlocks(c, rw, nkeys, 1, 1+c.Rng.Intn(3), priv, -1)
 		}
 		cs := Case{RW: rw, Progs: progs, Kind: "random"}
 		if c.Rng.Chance(50) {
@@ -482,10 +629,10 @@ func run(c *core.Ctx) {
 		}
 		var base []int // the set-up prefix runs alone first (ClearKey only while nobody holds or awaits the key)
 		if len(cs.Prefix) > 0 {
-			r0, _ := execute(Case{RW: cs.RW, Prefix: cs.Prefix, Progs: [][]Block{{}}}, sched.NonPreemptive)
+			r0, _ := execute(Case{RW: cs.RW, Prefix: cs.Prefix, Progs: [][]Block{{}}}, sched.NonPreemptive, false)
 			base = r0.Chosen
 		}
-		r, info := execute(cs, sched.Then(base, sched.Random(c.Rng.Intn, 40)))
+		r, info := execute(cs, sched.Then(base, sched.Random(c.Rng.Intn, 40)), true)
 		report(c, cs, r, info)
 	}
 }
